@@ -656,12 +656,17 @@ def mc_impl(tier, seed):
     """MC_Impl: TLC executes the implementation-shaped scripts of spec/SVecImpl.tla for every explored state, every
     modelled call and EVERY throw point, and asserts the whole L1 contract and the L0 machine on each predicted line."""
     import suites
+    rot = seed % 16
     if tier == 'quick':
-        insts = [dict(suites.one(2, nothrow=False, maxlen=4, maxcnt=2), Profile='impl'),
-                 dict(suites.one(0, nothrow=True, maxlen=3, maxcnt=2), Profile='impl')]
+        insts = [dict(suites.one(2, nothrow=False, maxlen=4, maxcnt=2, kinds=(4,)), Profile='impl'),
+                 dict(suites.one(0, nothrow=True, maxlen=3, maxcnt=2, kinds=(4,)), Profile='impl')]
+        insts += [dict(suites.two(2, 2, maxlen=2, maxcap=4, **suites.traits_mc(*suites.ALL_TRAITS[(rot + 7 * i) % 16])), Profile='impl2', NothrowMove=False)
+                  for i in range(2)]
     else:
-        insts = [dict(suites.one(N, nothrow=nt, copyable=cp, maxlen=5, maxcnt=3), Profile='impl')
+        insts = [dict(suites.one(N, nothrow=nt, copyable=cp, maxlen=5, maxcnt=3, kinds=(4,)), Profile='impl')
                  for N in (0, 2, 3) for (nt, cp) in ((True, True), (False, True), (False, False), (True, False))]
+        insts += [dict(suites.two(na, nb, maxlen=3, maxcap=8, **suites.traits_mc(*tr)), Profile='impl2', NothrowMove=nt)
+                  for (na, nb) in ((2, 2), (0, 2), (3, 2), (2, 3), (0, 0)) for tr in suites.ALL_TRAITS for nt in (False,)]
     rs = _run_many(P.gen_stimuli, insts, workers=6)
     return dict(lines=0, ops=0, restarts=0, skipped=0, sample=[], sigs={}, nlines={}, violations=[], stims=0, stims_total=0,
                 mc=None, drv='MC_Impl', drvconf=None, fmode=0,
@@ -676,6 +681,7 @@ EXTRA = {
     'C03': [mc_impl],
     'C05': [mc_impl],
     'C06': [mc_impl],
+    'C09': [mc_impl],
     'C19': [c19],
     'C18': [c18_table],
     'C13': [c13_facts],
